@@ -7,6 +7,7 @@
 //!
 //! usage: itv <cases.jsonl> <out.jsonl> <scratch-dir> [start-index]
 
+mod api_build;
 mod keys;
 mod ops_block;
 mod ops_entry;
